@@ -93,6 +93,13 @@ package bandwidthlimiter
 //@ func (*Throttler).start
 //@   requires th.metrics != nil
 //@   modifies th.running, th.metrics.StartReadingResponseMonoTimeMs
+// C17 ("the volume forwarded by any time never exceeds burst plus rate times elapsed time"): the refill goroutine adds tokens once per
+// tick of its ticker and at no other moment (not when it starts)
+//@ event RefillTick = recv time.Ticker.C
+//@ event BucketRefilled = call bandwidthlimiter.(*Bucket).produceTokens
+//@ func (*Throttler).start$1
+//@   loop for: invariant [one-refill-per-tick] delta(BucketRefilled) == delta(RefillTick)
+//@   ensures [C17: tokens-are-added-once-per-tick-only] delta(BucketRefilled) == delta(RefillTick)
 //@ func (*Throttler).stop
 //@   requires th.metrics != nil
 //@   modifies th.running, th.metrics.FinishReadingResponseMonoTimeMs, th.metrics.OutboundThroughputBps
